@@ -17,11 +17,12 @@ import (
 // ---------------------------------------------------------------------------
 
 // collector describes a leaf producer of the form
-//   var msg [][]byte; [msg = append(msg, prefix)]; for _, x := range S { b := x.ToBytes(); if b != nil { msg = append(msg, b) } }; return joinBody(msg...)
+//
+//	var msg [][]byte; [msg = append(msg, prefix)]; for _, x := range S { b := x.ToBytes(); if b != nil { msg = append(msg, b) } }; return joinBody(msg...)
 type collector struct {
 	Fn       *ssa.Function
-	Over     string     // rendered slice ranged over
-	Elem     string     // rendered element producer
+	Over     string      // rendered slice ranged over
+	Elem     string      // rendered element producer
 	Prefix   []ssa.Value // elements appended before the loop
 	Problems []string
 	EmptyNil bool // returns nil when nothing was collected / slice empty
